@@ -1123,7 +1123,7 @@ class Context:
     def enumerate_tuples(self, values, limit=2000, label="enumerate"):
         """AllSAT over a tuple of symbolic ints under the current path condition: returns every feasible value
         tuple (the final unsat answer proves the list complete).  More than `limit` -> Unsupported."""
-        es = [iexpr(v) for v in values]
+        es = [z3.simplify(iexpr(v), som=True) for v in values]
         s = z3.SolverFor("QF_BV") if self.logic == "QF_BV" else z3.Solver()
         s.set("timeout", self.query_timeout_ms)
         for cnd in self.path_cond():
